@@ -758,6 +758,26 @@ func (o *oracleCtx) c04() {
 					o.fail("C04", "ll:parts-listed-under-old-segment", "stream %d: parts listed under a segment that is not one of the last two", si)
 				}
 			}
+			// the delta update of the same instant: the same media sequence number, and its listed entries are the
+			// full playlist's entries from position SKIPPED-SEGMENTS on (same number -> same segment)
+			if si < len(rot.deltas) && rot.deltas[si] != nil && rot.deltas[si].err == "" {
+				pd := rot.deltas[si]
+				if pd.msn != pm.msn {
+					o.fail("C04", "ll:delta-media-sequence-differs", "stream %d: the delta update carries MEDIA-SEQUENCE %d, the full playlist of the same instant %d", si, pd.msn, pm.msn)
+				}
+				if pd.skipped < 0 || pd.skipped+int64(len(pd.segs)) != int64(len(pm.segs)) {
+					o.fail("C04", "ll:delta-window-differs", "stream %d: delta update skips %d and lists %d segments, the full playlist lists %d", si, pd.skipped, len(pd.segs), len(pm.segs))
+				} else {
+					for i, sg := range pd.segs {
+						f := pm.segs[int(pd.skipped)+i]
+						pu, _ := stripQuery(sg.uri)
+						fu, _ := stripQuery(f.uri)
+						if pu != fu || sg.durText != f.durText || sg.gap != f.gap {
+							o.fail("C04", "ll:delta-entry-differs", "stream %d: media sequence number %d is (%s, %s) in the delta update and (%s, %s) in the full playlist", si, pm.msn+pd.skipped+int64(i), pu, sg.durText, fu, f.durText)
+						}
+					}
+				}
+			}
 			if prev := prevPl[si]; prev != nil {
 				if pm.msn < prev.msn {
 					o.fail("C04", vn+":media-sequence-decreased", "stream %d: MEDIA-SEQUENCE went from %d to %d", si, prev.msn, pm.msn)
@@ -859,7 +879,16 @@ func (o *oracleCtx) c05() {
 				if p.resp.ctype != wantCT {
 					o.fail("C05", vn+":content-type", "listed %s has Content-Type %q, want %q", kindName(key.kind), p.resp.ctype, wantCT)
 				}
-				if len(p.resp.body) == 0 {
+				// an empty body is not what C05 forbids; it is reported only while every write has returned nil (a
+				// segment opened by a unit that SegmentMaxSize refused is legitimately empty, and the model agrees;
+				// for histories of successful writes non-emptiness is c02_*_segments_start_with_random_access)
+				failedBefore := false
+				for k := 0; k <= rot.k && k < len(r.results); k++ {
+					if r.results[k] != 0 {
+						failedBefore = true
+					}
+				}
+				if len(p.resp.body) == 0 && !failedBefore {
 					o.fail("C05", vn+":listed-uri-empty", "listed %s returned an empty body", kindName(key.kind))
 				}
 				sum := sha256.Sum256(p.resp.body)
